@@ -621,6 +621,8 @@ def run(ctx):
                     ctx.report("corpus case: Check accepts %r types %r, expected a refusal: %s" % (c["schema"][:100], c.get("types"), c.get("why", "")), "c03corpus:" + c["schema"] + json.dumps(c.get("types")), dict(c, implementation=r), case=c)
                 continue
             got = "accept" if (r[0] == "ok" and r[1] == "ok") else "reject"
+            if c.get("check_may_fail") and r[0] != "ok":
+                continue            # the schema is refused outright: nothing it could wrongly accept
             if (r[0] != "ok" or got != c["expect"]) and len(ctx.violations) < 40:
                 ctx.report("corpus case: Check %s, Validate(%s) %s, expected %s; schema %r types %r" % (r[0], c["document"], r[1] if len(r) > 1 else "-", c["expect"], c["schema"][:100], c.get("types")),
                            "c03corpus:" + c["schema"] + "|" + c["document"], dict(c, implementation=r), case=c)
